@@ -929,6 +929,12 @@ func (d *decoder) lineIsContent(line int) bool {
 // belonging to the next sibling are not consumed by the current node's
 // scope.
 func (d *decoder) scopeEndBefore(keyLine int, hasHeadComments bool) int {
+	if keyLine < 1 || keyLine > len(d.tokLines) {
+		// The YAML parser also counts line breaks that the line table does
+		// not know, such as a carriage return inside a quoted key, so its
+		// line numbers can run past the table; see also lineColOffset.
+		return len(d.src)
+	}
 	end := d.tokLines[keyLine-1]
 	if !hasHeadComments {
 		return end
